@@ -74,12 +74,20 @@ def run_one(job: dict, base: Path) -> dict:
         else:
             lab0.run_tasks([t0], **quiet)
             t_old = t0.result_meta.start
-    F.PLAN = plan
-    F.HIT = 0
-    os.environ['LV_FAULT_PLAN'] = json.dumps(plan)
     taskf = T(tid=1, shape=shape)
     labf = labtech.Lab(storage=F.FaultStorage(plain), context={'epoch': 1}, runner_backend=job['backend'],
                        continue_on_failure=True, max_workers=1, notebook=False)
+    # the Lab that is about to save has already looked at the entry (and, every other time, listed it): whatever it
+    # remembers from that must not outlive the failed / killed save
+    try:
+        labf.is_cached(taskf)
+        if plan.get('at', 0) % 2 == 0:
+            labf.cached_tasks([T])
+    except BaseException:   # noqa
+        pass
+    F.PLAN = plan
+    F.HIT = 0
+    os.environ['LV_FAULT_PLAN'] = json.dumps(plan)
     raised = ''
     res = {}
     try:
@@ -109,8 +117,20 @@ def run_one(job: dict, base: Path) -> dict:
     except BaseException as ex:   # noqa
         obs['listed'], obs['list_raises'] = False, True
         obs['list_exc'] = type(ex).__name__
+    # ---- and what the Lab that performed the save observes (same object, same process)
+    t2s = T(tid=1, shape=shape)
     try:
-        if not (obs['is_cached'] or obs['listed']):
+        obs['same_is_cached'] = bool(labf.is_cached(t2s))
+    except BaseException as ex:   # noqa
+        obs['same_is_cached'] = True
+        obs['same_is_cached_exc'] = type(ex).__name__
+    try:
+        lst = labf.cached_tasks([T])
+        obs['same_listed'], obs['same_list_raises'] = (t2s in lst), False
+    except BaseException as ex:   # noqa
+        obs['same_listed'], obs['same_list_raises'] = False, True
+    try:
+        if not (obs['is_cached'] or obs['listed'] or obs['same_is_cached'] or obs['same_listed']):
             # nothing is reported: do not touch the storage (LocalStorage creates the key directory even for a read)
             raise LookupError('not reported as cached')
         r = t2._lt.cache.load_result_with_meta(plain, t2)
@@ -126,8 +146,11 @@ def run_one(job: dict, base: Path) -> dict:
         obs['files'] = None
     obs['rerun_applicable'] = shape != 'unpicklable'
     t3 = T(tid=1, shape=shape)
+    # the re-run is made by the saving Lab itself or by the later one, alternating with the injection point
+    same = (plan.get('at', 0) + (1 if ow else 0)) % 2 == 1
+    obs['rerun_by'] = 'same' if same else 'fresh'
     try:
-        out = lab.run_tasks([t3], **quiet)
+        out = (labf if same else lab).run_tasks([t3], **quiet)
         obs['rerun_ok'] = t3 in out
         obs['rerun_val'] = classify(out[t3], shape) if t3 in out else 'none'
     except BaseException as ex:   # noqa
